@@ -5,7 +5,7 @@
 (* the values the same pattern REPORTED (both recorded by `wv observe`).   *)
 (* PROP selects the contract; every reachable product state is visited.    *)
 (***************************************************************************)
-EXTENDS KnownFindings, GlobQuery, Json, IOUtils
+EXTENDS KnownFindings, GlobRules, VarianceImpl, GlobQuery, Json, IOUtils
 
 Obs  == ndJsonDeserialize(IOEnv.OBS)
 Prop == IOEnv.PROP
@@ -13,10 +13,18 @@ Prop == IOEnv.PROP
 (* the stripped token tree a record stands for (a glob, or the union of the members of `any`) *)
 TreeOf(o) ==
   IF o.kind = "any" THEN
-     LET ps == [i \in 1..Len(o.members) |-> Parse(o.members[i])] IN
+     LET ps == [i \in 1..Len(o.members) |-> Parse(o.members[i])]
+         Alt(ms) == [k |-> "alt", bs |-> ms] IN
      IF \A i \in DOMAIN ps : ps[i].st = "ok"
-     THEN <<[k |-> "alt", bs |-> [i \in DOMAIN ps |-> Strip(ps[i].toks)]]>> ELSE <<>>
+     THEN LET ms == [i \in DOMAIN ps |-> Strip(ps[i].toks)] IN
+          (* nested: any([any([m1]), any([m2, ...])]) as the harness builds it *)
+          IF o.mode = "nested" /\ Len(ms) >= 2
+          THEN <<Alt(<< <<Alt(<<ms[1]>>)>>, <<Alt(SubSeq(ms, 2, Len(ms)))>> >>)>>
+          ELSE <<Alt(ms)>>
+     ELSE <<>>
   ELSE LET p == Parse(o.e) IN IF p.st = "ok" THEN Strip(p.toks) ELSE <<>>
+
+ParsesOK(o) == IF o.kind = "any" THEN \A i \in DOMAIN o.members : Parse(o.members[i]).st = "ok" ELSE Parse(o.e).st = "ok"
 
 VARIABLES case, st, impl, can, mon, path
 vars == <<case, st, impl, can, mon, path>>
@@ -28,8 +36,10 @@ Relevant(o) ==
     [] Prop = "C10" -> (IF o.q.dhi = -1 THEN o.q.dlo ELSE o.q.dhi) < MaxCap
     [] Prop = "C11" -> o.q.has_text
     [] Prop = "C12" -> o.q.root = "always"
+    [] Prop = "IMPL" -> TRUE
 
-Usable(o) == o.outcome = "ok" /\ o.qpanic = "" /\ o.dfa.ok /\ Relevant(o)
+(* expressions outside the documented syntax (a flag inside a tree wildcard ...) are out of the domain *)
+Usable(o) == o.outcome = "ok" /\ o.qpanic = "" /\ o.dfa.ok /\ Relevant(o) /\ ParsesOK(o)
 
 Cap(o) == IF Prop = "C10" THEN (IF o.q.dhi = -1 THEN o.q.dlo ELSE o.q.dhi) + 1 ELSE 1
 
@@ -63,9 +73,16 @@ Spec == Init /\ [][Next]_vars
 View == <<case, st, impl, can, mon>>
 
 Report(r) == PrintT(ToJson(r))
+ImplSame(o, T) ==
+  /\ ParsesOK(o)
+  /\ DepthImpl(T) = R(o.q.dlo, IF o.q.dhi = -1 THEN INF ELSE o.q.dhi)
+  /\ ExhImpl(T) = o.q.exh
 Sig == LET T == TreeOf(Obs[case]) IN
        [endsep |-> LastLeafIsSep(T), treebranch |-> TreeThenBranch(T), inrep |-> TreeInRep(T),
-        sepclass |-> ClassListsSep(T)]
+        sepclass |-> ClassListsSep(T), treelastalt |-> TreeLastInAltBranch(T), branchinrep |-> BranchInUnboundedRep(T),
+        skipadj |-> (T # <<>> /\ Adjacent(ExpandZ(T), "B") /\ ~Adjacent(Expand(T, {1}), "B")),
+        (* the reported value is what the transcription of the pinned algorithm computes *)
+        implsame |-> ImplSame(Obs[case], T)]
 Dis(what) == Report([t |-> "DISAGREE", prop |-> Prop, what |-> what, id |-> Obs[case].id, path |-> path, sig |-> Sig])
 
 (* C09: everything canonical beneath an accepted canonical path is accepted *)
@@ -92,6 +109,14 @@ TextSound ==
 (* C12: a pattern that always has a root only matches paths that begin with a separator *)
 RootSound ==
   (st = "run" /\ Prop = "C12" /\ ImplAcc) => can.rooted \/ Dis("unrooted_match")
+
+(* self-check of VarianceImpl.tla: the transcription reproduces the code on every case *)
+ImplExact ==
+  (st = "run" /\ Prop = "IMPL" /\ path = <<>> /\ ParsesOK(Obs[case])) =>
+     LET T == TreeOf(Obs[case])  o == Obs[case] IN
+     ImplSame(o, T) \/ Report([t |-> "IMPLDIFF", id |-> o.id, depth |-> DepthImpl(T), exh |-> ExhImpl(T),
+                                rdlo |-> o.q.dlo, rdhi |-> o.q.dhi, rexh |-> o.q.exh])
+OnlyLoaded == path = <<>>
 
 (* vacuity guard / coverage: one line per case that entered the product *)
 Entered == (st = "run" /\ path = <<>>) => Report([t |-> "IN", id |-> Obs[case].id])
